@@ -143,6 +143,9 @@ def binop (name : String) (a b : XR) : Option XR :=
   | "and" => bitop intLand a b
   | "or" => bitop intLor a b
   | "xor" => bitop intXor a b
+  -- logical connectives by truthiness: what `np.all` / `np.any` fold with (used for the `all` / `any` reductions)
+  | "land" => some (boolXR (a.truthy && b.truthy))
+  | "lor" => some (boolXR (a.truthy || b.truthy))
   | "eq" => some (boolXR (decide (a = b) && !a.isNan))
   | "ne" => some (boolXR (!(decide (a = b) && !a.isNan)))
   | "lt" => some (boolXR (XR.lt a b))
@@ -198,6 +201,8 @@ def unitOf (name : String) : Option XR :=
   | "and" => some 1
   | "or" => some 0
   | "xor" => some 0
+  | "land" => some 1
+  | "lor" => some 0
   | _ => none
 
 /-- Fold an associative op over a non-empty list of values (first element is the seed). -/
@@ -373,7 +378,7 @@ def parseIdxItems (s : Sexp) : Option (List IdxItem) := do
     | _ => none
 
 def reductionOps : List (String × String) :=
-  [("sum", "add"), ("prod", "mul"), ("amax", "max"), ("amin", "min"), ("all", "and"), ("any", "or")]
+  [("sum", "add"), ("prod", "mul"), ("amax", "max"), ("amin", "min"), ("all", "land"), ("any", "lor")]
 
 def evalUnary (op : Op) (s : Sem) : Option Sem :=
   match reductionOps.lookup op.name with
